@@ -311,13 +311,24 @@ func TestC02Replay(t *testing.T) {
 	var doc struct {
 		Case c02Case `json:"case"`
 	}
-	if err := json.Unmarshal(b, &doc); err != nil {
+	var wdoc struct {
+		Case c02WindowCase `json:"case"`
+	}
+	json.Unmarshal(b, &wdoc)
+	if err := json.Unmarshal(b, &doc); err != nil && wdoc.Case.During == "" {
 		t.Fatal(err)
 	}
 	var wg sync.WaitGroup
 	wg.Add(1)
 	go func() {
 		defer wg.Done()
+		if wdoc.Case.During != "" {
+			// a journalled send-window case
+			if fails := runC02Window(wdoc.Case, vt.StreamProtos()); len(fails) > 0 {
+				t.Errorf("C02 violated: %s", fails[0])
+			}
+			return
+		}
 		if fails := runC02(doc.Case, vt.StreamProtos()); len(fails) > 0 {
 			t.Errorf("C02 violated: %s", fails[0])
 		}
